@@ -169,7 +169,7 @@ Definition feas_tol (tol : option num) (r : xr num) : bool :=
 Section Breaking.
 Variable items : list (item num).
 Variable width : num.
-Variable feas : xr num -> bool.       (* which ratios are admitted *)
+Variable feas : xr num -> bool.       (* which ratios are allowed *)
 
 Definition prev_lt (prev : option nat) (i : nat) : bool :=
   match prev with None => true | Some a => (a <? i)%nat end.
